@@ -83,6 +83,7 @@ type c15Sub struct {
 	ctx          context.Context
 	cancel       context.CancelFunc
 	preCancelled bool
+	viaCancel    bool // subscribed with SubscribeCancel: cancel is the function it returned, Unsubscribe is the library's job
 	// plan
 	ready        string // "buffered" | "receiver" | "never"
 	cancelDuring bool
@@ -97,6 +98,9 @@ func (s *c15Sub) String() string {
 	c := "no-ctx"
 	if s.ctx != nil {
 		c = "ctx"
+		if s.viaCancel {
+			c = "SubscribeCancel"
+		}
 		if s.preCancelled {
 			c = "ctx-precancelled"
 		}
@@ -107,9 +111,9 @@ func (s *c15Sub) String() string {
 func init() {
 	core.Register(&core.Property{
 		ID: "C15",
-		Rule: "rounds: 0-6 subscriptions over keys {A,B} x element types {int,string,any,error,*T,send-only int} x {no context, live context, context cancelled before the publish, context cancelled during it} x target {buffered and empty, unbuffered with a receiver arriving at a random step, never ready}, one Publish/PublishContext(A, v) per round with v in {int,string,*T,error,nil,float,typed nil pointer}, " +
+		Rule: "rounds: 0-6 subscriptions over keys {A,B} x element types {int,string,any,error,*T,send-only int} x {no context, live context, context cancelled before the publish, context cancelled during it; half of the live/cancelled-during ones made with SubscribeCancel (nil or live parent), cancelled through the function it returned and unsubscribed by the library} x target {buffered and empty, unbuffered with a receiver arriving at a random step, never ready}, one Publish/PublishContext(A, v) per round with v in {int,string,*T,error,nil,float,typed nil pointer}, " +
 			"the readiness/cancellation events (and an optional cancellation of the publish context) fired in a random order while the publish is in flight; oracle: receipts per subscription vs an independent eligibility table (Go assignability; untyped nil => nilable kinds): eligible-and-ready-and-never-cancelled => exactly 1, ineligible => 0, nobody > 1, " +
-			"Publish does not return (publish context live) before an eligible never-cancelled subscription's receiver has even started, Publish returns within the bound once every eligible subscription has received or been cancelled, no panic for any value; registry: duplicate Subscribe / unmatched Unsubscribe panic and leave deliveries unchanged, nothing is delivered after Unsubscribe returned; " +
+			"Publish does not return (publish context live) before an eligible never-cancelled subscription's receiver has even started, Publish returns within the bound once every eligible subscription has received or been cancelled, no panic for any value; registry: duplicate Subscribe (incl. SubscribeCancel on an existing subscription) / unmatched Unsubscribe panic and leave deliveries unchanged, nothing is delivered after Unsubscribe returned; " +
 			"unsubscribe-during-publish: a target unsubscribed (and re-subscribed under another key) while a publish is parked on it must not receive that publish's value afterwards. non-trivial = a round had at least one eligible and one ineligible subscription or an event during the publish; distinct = distinct (subscription plan, value, event order) signatures",
 		Assumptions: []string{"a subscription whose context is cancelled while the publish is in flight may receive 0 or 1 copies", "map iteration order inside the library supplies the internal arrangement; notifier.publish.select is delayed to stretch the gaps between deliveries"},
 		Families: []core.Family{
@@ -156,7 +160,16 @@ func c15Round(c *core.Ctx) {
 			s.cancelDuring = true
 		}
 		subs[i] = s
-		if s.ctx != nil {
+		if s.ctx != nil && !s.preCancelled && c.Rng.IntN(2) == 0 {
+			// SubscribeCancel: the library derives the subscription's context (from a live parent or from nil) and
+			// unsubscribes by itself once the returned function has been called
+			s.viaCancel = true
+			var parent context.Context
+			if c.Rng.IntN(2) == 0 {
+				parent = context.Background()
+			}
+			s.cancel = n.SubscribeCancel(parent, s.key, s.tgt.target)
+		} else if s.ctx != nil {
 			n.SubscribeContext(s.ctx, s.key, s.tgt.target)
 		} else {
 			n.Subscribe(s.key, s.tgt.target)
@@ -319,8 +332,11 @@ func c15Round(c *core.Ctx) {
 		if s.cancel != nil {
 			s.cancel()
 		}
-		n.Unsubscribe(s.key, s.tgt.target)
+		if !s.viaCancel {
+			n.Unsubscribe(s.key, s.tgt.target)
+		}
 	}
+	core.LibLeaks(2000) // SubscribeCancel's watchers unsubscribe on their own
 	c.Op("publish", 1)
 	c.Op("subscription", nsubs)
 	c.Op("event", len(events))
@@ -354,7 +370,7 @@ func c15Registry(c *core.Ctx) {
 	n.Subscribe("A", chA)
 	n.Subscribe("B", chB)
 	n.Subscribe("A", chAny)
-	misuse := core.Pick(c.Rng, "dup-subscribe", "dup-subscribe-ctx", "dup-subscribe-after-cancel", "unsub-unknown-target", "unsub-wrong-key", "unsub-twice", "non-chan-target", "recv-only-target")
+	misuse := core.Pick(c.Rng, "dup-subscribe", "dup-subscribe-ctx", "dup-subscribe-after-cancel", "dup-subscribe-cancel", "dup-subscribe-cancel", "unsub-unknown-target", "unsub-wrong-key", "unsub-twice", "non-chan-target", "recv-only-target")
 	var pv interface{}
 	switch misuse {
 	case "dup-subscribe":
@@ -377,6 +393,16 @@ func c15Registry(c *core.Ctx) {
 		// restore the live subscription the rest of the scenario expects
 		n.Unsubscribe("A", chA)
 		n.Subscribe("A", chA)
+	case "dup-subscribe-cancel":
+		// the convenience wrapper on an existing subscription: panics, and whatever it set up on the way (sub-context,
+		// unsubscribe watcher) must not touch the subscription that exists
+		var parent context.Context
+		if c.Rng.IntN(2) == 0 {
+			parent = context.Background()
+		}
+		pv = core.Recover(func() { n.SubscribeCancel(parent, "A", chA) })
+		core.LibLeaks(2000) // let anything it started run to its end
+		time.Sleep(time.Duration(c.Rng.IntN(300)) * time.Microsecond)
 	case "unsub-unknown-target":
 		pv = core.Recover(func() { n.Unsubscribe("A", make(chan int)) })
 	case "unsub-wrong-key":
